@@ -752,7 +752,7 @@ class C13(Check):
 
     def run_shard(self, tier, seed, shard, nshards):
         res = ShardResult()
-        n = 1500 if tier == "thorough" else 120
+        n = 1000 if tier == "thorough" else 120
         cnt = [0]
 
         def one(ops):
